@@ -10,11 +10,16 @@ import MpcVerif.Proofs.MpclSsaTree
 namespace Mpc.Mpcl.Ssa
 open Mpc.Mpcl
 
+/-- The values a `return` delivers vs the values `ws` at the leaf of the return
+tree: the same list, or - `return f(..)` with a call of several results - the
+one aggregate the interpreter's call delivered (unpacked by `packResults`). -/
+def RetVals (vals ws : List Val) : Prop := vals = ws ∨ (vals = [.agg ws] ∧ ws.length ≠ 1)
+
 /-- The interpreter's outcome of a block vs the lowered block at the store
 `st'` reached by its code. -/
 def OutRel (st' : Nat → Nat) (r : LRes) : Outcome → Prop
   | .normal env' => r.tree.eval st' = none ∧ ∃ n', r.nms = some n' ∧ Rel st' n' env'
-  | .returned vals => ∃ lv, r.tree.eval st' = some lv ∧ vals = lv.map fun p => p.2.decode p.1
+  | .returned vals => ∃ lv, r.tree.eval st' = some lv ∧ RetVals vals (lv.map fun p => p.2.decode p.1)
 
 /-- What lowering a block guarantees when its code runs from `st` to `st'`. -/
 def Post (next : Nat) (r : LRes) (st st' : Nat → Nat) (exec : Nat → Option Outcome) : Prop :=
@@ -93,8 +98,24 @@ theorem packResults_many (vals : List Val) (k : Nat) (hk : vals.length = k) (h :
   | [_], h => simp at h
   | _ :: _ :: _, _ => simp [packResults]
 
+theorem packResults_retVals {vals ws : List Val} {k : Nat} (h : RetVals vals ws) (hk : ws.length = k) :
+    packResults k vals = packResults k ws := by
+  rcases h with e | ⟨e, hne⟩
+  · rw [e]
+  · subst e
+    subst hk
+    rw [packResults_many ws _ rfl hne]
+    match ws, hne with
+    | [], _ => simp [packResults]
+    | [_], hne => simp at hne
+    | _ :: _ :: _, _ => simp [packResults]
+
 theorem resVals_length (st : Nat → Nat) (rs : List (Nat × Ty)) : (resVals st rs).length = rs.length := by
   simp [resVals]
+
+theorem leaf_resVals (st : Nat → Nat) (rs : List (Nat × Ty)) :
+    ((rs.map fun p => (st p.1, p.2)).map fun p => p.2.decode p.1) = resVals st rs := by
+  simp [resVals, List.map_map, Function.comp]
 
 theorem resVals_frame {k : Nat} {st st' : Nat → Nat} (hf : Frame k st st') :
     ∀ (rs : List (Nat × Ty)), (∀ p ∈ rs, p.1 < k) → resVals st' rs = resVals st rs
@@ -277,15 +298,18 @@ theorem call_succ (P : Prog) (f : Nat) (ihA : ArgsSound P f) (ihB : BSound P f) 
                 rw [hev'] at hev
                 have : lv' = lv := Option.some.inj hev
                 subst this
-                have hrvals : rvals = resVals st4 rs0 := by
-                  rw [hrv, ← hmap4]; simp [resVals, List.map_map, Function.comp]
+                have hrvals : RetVals rvals (resVals st4 rs0) := by
+                  have e : resVals st4 rs0 = lv'.map fun p => p.2.decode p.1 := by
+                    rw [← hmap4]; simp [resVals, List.map_map, Function.comp]
+                  rw [e]; exact hrv
                 refine ⟨max fa fb + 1, ?_, hbd4, hrsb,
                   ((hfr1.trans hfr2 hn1).trans hfr3 (by omega)).trans hfr4 (by omega), by omega,
                   NoRet_append (NoRet_append (NoRet_append hnr1 hnr2) hnr3) hnr4⟩
                 have e2 := mapM_mono (fun e => evalE P fa e env) (fun e => evalE P (max fa fb) e env)
                   (fun x v hv => evalE_mono P (Nat.le_max_left fa fb) x env v hv) args vals hmap
                 have e3 := execB_mono P (Nat.le_max_right fa fb) _ _ _ hex
-                simp only [evalE, hg, e2, hvl, if_true, hbp, e3, hrvals, hlen]
+                simp only [evalE, hg, e2, hvl, if_true, hbp, e3, hlen]
+                exact packResults_retVals hrvals (by rw [resVals_length, hlen])
             · cases h
 
 /-- `f(..)` with one result as an expression. -/
@@ -362,6 +386,70 @@ theorem ret_succ (P : Prog) (f : Nat) (ihE : ESound P f) (ihR : RetSound P f) : 
           rcases List.mem_cons.1 hp with e1 | e1
           · subst e1; simp only; rw [hst'n1]; exact haw
           · exact hbd2 p e1
+
+/-- `return f(..)`: the results of the call moved into the result variables. -/
+theorem retMovs_sound : ∀ (rs : List (Nat × Ty)) (next : Nat) (st st' : Nat → Nat),
+    (∀ p ∈ rs, st p.1 < 2 ^ p.2.bits) → (∀ p ∈ rs, p.1 < next) → ssaSteps (retMovs rs next).2.1 st = some st' →
+    resVals st' (retMovs rs next).1 = resVals st rs ∧ (retMovs rs next).1.length = rs.length ∧
+      (∀ p ∈ (retMovs rs next).1, p.1 < (retMovs rs next).2.2) ∧
+      (∀ p ∈ (retMovs rs next).1, next ≤ p.1) ∧
+      (∀ p ∈ (retMovs rs next).1, st' p.1 < 2 ^ p.2.bits) ∧ Frame next st st' ∧ next ≤ (retMovs rs next).2.2 ∧
+      NoRet (retMovs rs next).2.1
+  | [], next, st, st', _, _, hrun => by
+    simp only [retMovs, ssaSteps, Option.some.injEq] at hrun; subst hrun
+    exact ⟨rfl, rfl, (fun p hp => by cases hp), (fun p hp => by cases hp), (fun p hp => by cases hp),
+      Frame.refl _ _, Nat.le_refl _, NoRet_nil⟩
+  | (id, t) :: rs, next, st, st', hbd, hrsb, hrun => by
+    simp only [retMovs] at hrun ⊢
+    obtain ⟨st1, hrun1, hrun2⟩ := ssaSteps_cons_split hrun
+    have harg : argVal st (.var id t.bits) = (st id, t.bits) := by simp [argVal, SStore.get]
+    have hlt := hbd (id, t) (by simp)
+    have hst1 := mov_step hrun1 harg hlt
+    have hfr1 : Frame next st st1 := by rw [hst1]; exact Frame_set (Nat.le_refl _)
+    have hbd' : ∀ p ∈ rs, st1 p.1 < 2 ^ p.2.bits := fun p hp => by
+      rw [hfr1 p.1 (hrsb p (List.mem_cons_of_mem _ hp))]; exact hbd p (List.mem_cons_of_mem _ hp)
+    obtain ⟨hrv, hlen, hub, hlb, hbd2, hfr2, hn2, hnr2⟩ :=
+      retMovs_sound rs (next + 1) st1 st' hbd'
+        (fun p hp => by have := hrsb p (List.mem_cons_of_mem _ hp); omega) hrun2
+    have hs : st' next = st id := by rw [hfr2 next (by omega), hst1]; simp
+    have hrv1 : resVals st1 rs = resVals st rs :=
+      resVals_frame hfr1 rs (fun p hp => hrsb p (List.mem_cons_of_mem _ hp))
+    refine ⟨?_, by simp [hlen], ?_, ?_, ?_, hfr1.trans hfr2 (by omega), by omega, NoRet_cons (by simp [movI]) hnr2⟩
+    · simp only [resVals, List.map_cons, hs]
+      congr 1
+      have := hrv
+      simp only [resVals] at this hrv1
+      rw [this, hrv1]
+    · intro p hp
+      rcases List.mem_cons.1 hp with e | e
+      · subst e; simp only; omega
+      · exact hub p e
+    · intro p hp
+      rcases List.mem_cons.1 hp with e | e
+      · subst e; exact Nat.le_refl _
+      · have := hlb p e; omega
+    · intro p hp
+      rcases List.mem_cons.1 hp with e | e
+      · subst e; simp only; rw [hs]; exact hlt
+      · exact hbd2 p e
+
+theorem retCallOf_some {es : List Expr} {g : Nat} {args : List Expr} (h : retCallOf es = some (g, args)) :
+    es = [.call g args] := by
+  match es, h with
+  | [.call g' args'], h =>
+    simp only [retCallOf, Option.some.injEq, Prod.mk.injEq] at h
+    obtain ⟨e1, e2⟩ := h; subst e1; subst e2; rfl
+  | [], h => simp [retCallOf] at h
+  | [.lit _ _], h => simp [retCallOf] at h
+  | [.var _], h => simp [retCallOf] at h
+  | [.bin _ _ _], h => simp [retCallOf] at h
+  | [.shift _ _ _], h => simp [retCallOf] at h
+  | [.not _], h => simp [retCallOf] at h
+  | [.neg _], h => simp [retCallOf] at h
+  | [.cast _ _], h => simp [retCallOf] at h
+  | [.idx _ _], h => simp [retCallOf] at h
+  | [.fld _ _], h => simp [retCallOf] at h
+  | _ :: _ :: _, h => simp [retCallOf] at h
 
 /-! ### Storing values -/
 
